@@ -36,7 +36,7 @@ def nontrivial(req, obs):
     if f[0] == "sub":
         return f[1] != "-" and f[6] != "0" and f[2] == "0"   # at least one decorator and one message received
     if f[0] == "rt":
-        return f[4] != "-"
+        return f[5] != "-"
     return False
 
 
@@ -77,6 +77,7 @@ PROP = {
         "Wm.Decor.router_step_output",
         "Wm.Decor.metrics_handler_once",
         "Wm.Decor.router_metrics_exact",
+        "Wm.Decor.metrics_handler_each_application",
     ],
     # re-proved on every run against the bodies of applyDelay, of the metrics publisher decorator's Publish and of the handler
     # middleware, and the shapes of the two Publish loops, printed from the current Go source
@@ -99,7 +100,8 @@ PROP = {
             "batch (finding D15, reported as KNOWN-FINDING). sub: every subscriber stack of depth 0..3 over {transform a, transform b, "
             "metrics} x 4 programs (ack/nack/late ack, Close error, no message, Subscribe error) + random cases incl. Close with unread "
             "messages. rt: a real message.Router with one handler, publisher/subscriber decorated 0..3 times with the metrics decorators, "
-            "middleware once, handler outcome sequences over success (0-2 outputs) / error / panic with publisher failure scripts. Prometheus: "
+            "middleware once (in 1 of 8 random cases twice or not at all: model conformance only), handler outcome sequences over success "
+            "(0-2 outputs) / error / panic with publisher failure scripts. Prometheus: "
             "private registry, Gather() sample COUNTS per sorted label set compared with the harness' own counts (probe above the metrics "
             "decorator, scripted inner publisher, settled messages, handler invocations). Non-trivial = at least one decorator and one "
             "Publish call / one received message / one handler invocation; distinct = distinct (request, observation) pairs.",
@@ -125,8 +127,12 @@ PROP = {
         "'already observed' marks (user code, outside the property)",
         "the messages of one batch are distinct objects; the innermost subscriber hands out fresh message objects (as every "
         "watermill subscriber does)",
-        "the handler metrics middleware has no idempotency mark: registered twice it observes every invocation twice; the "
-        "property's quantifier ranges over decorator stacks (publisher / subscriber decorators) with the middleware applied once",
+        "the handler metrics middleware has no idempotency mark: registered twice it observes every invocation twice (reproduced on the "
+        "real code: AddPrometheusRouterMetrics twice gives handler_execution_time_seconds count 2 for one invocation, subscriber counter 1); "
+        "'also when applied twice' is read as speaking of the publisher / subscriber decorators – the property's quantifier ranges over "
+        "decorator stacks and its anchors name only the publish/subscribe marks as idempotency mechanism – so the monitor demands one handler "
+        "observation per invocation per registered middleware (theorem metrics_handler_each_application); the stricter reading would make "
+        "this a finding 'handler-middleware-applied-twice'",
         "counts of subscriber_messages_received_total are read at quiescence (the increment happens in a goroutine after the "
         "settlement): all goroutines of the case ended, or the count reached the expected value and stayed unchanged",
     ],
